@@ -482,6 +482,19 @@ func derivedCollision(c *core.Ctx, cf cfg, r *core.Rng) {
 		dn := derived[r.Intn(len(derived))]
 		h := start()
 		body := r.Pick([]string{"{{.}}", "{{.}}<b>'x'</b>", `{{printf "%v" .}}`, "user text"})
+		if n == 1 {
+			// ... or a member that calls the copy by its name, executed after the member that
+			// makes the engine create the copy
+			h.Ops = append(h.Ops, hist.Op{Kind: "parse", H: 0, Dst: 0, Text: `{{define "zcaller"}}<p>{{template "` + dn + `" .}}</p>{{end}}`})
+			for _, m := range set.Members {
+				h.Ops = append(h.Ops, hist.Op{Kind: "exect", H: 0, Dst: -1, Name: m, Data: r.Intn(len(data))})
+			}
+			h.Ops = append(h.Ops, hist.Op{Kind: "exect", H: 0, Dst: -1, Name: "zcaller", Data: r.Intn(len(data))})
+			c.Count("histories_calling_a_derived_copy_by_name", 1)
+			c.Journal(util.JSON(kase{History: h}))
+			judge(c, cf, h, false)
+			continue
+		}
 		h.Ops = append(h.Ops, hist.Op{Kind: "parse", H: 0, Dst: 0, Text: `{{define "` + dn + `"}}` + body + `{{end}}`})
 		if r.Intn(4) > 0 {
 			h.Ops = append(h.Ops, hist.Op{Kind: "exect", H: 0, Dst: -1, Name: dn, Data: r.Intn(len(data))})
